@@ -271,6 +271,10 @@ def http_ladder(rng, n):
                 else:
                     s.op('r', addr='@' + src)
                     s.op('hs', shape='val', v=hval(g, src))
+    # a third of the requests arrive without an announced length (chunked transfer): same ladder
+    for k, st in enumerate(s.d['steps']):
+        if st.get('op') == 'hs' and st.get('shape') in ('val', 'raw') and k % 3 == 0:
+            st['unsized'] = True
     s.ctl('q')
     return s.done()
 
@@ -435,7 +439,7 @@ def loop_values(rng, n, order):
 
 
 def loop_ctx(rng, variant):
-    s = Script('httploop', 'httploop ctx %s' % variant, **(dict(timeout_s=10, interval_s=3) if variant == 'unreachable-after-timeout' else {}))
+    s = Script('httploop', 'httploop ctx %s' % variant, **(dict(timeout_s=10, interval_s=3) if variant in ('unreachable-after-timeout', 'blocked-write-timeout-cancel') else {}))
     g = ValGen(rng)
     s.ctl('dial', end='A', addr='B')
     w = s.op('w', end='A', addr='B', v=hval(g, 'srcA', small=True))
@@ -459,6 +463,23 @@ def loop_ctx(rng, variant):
         r = s.op('r', end='A', addr='nowhere')
         w = s.op('w', end='A', addr='nowhere', v=hval(g, 'srcA', small=True))
         s.wait([w, r])
+        s.ctl('q')
+    elif variant == 'blocked-write-timeout-cancel':
+        # a POST held by the peer for longer than the idle timeout: the cleaner closes the connection under
+        # it; the held Write then fails (its caller gives up): an error, nothing else
+        s.ctl('hold', end='B')
+        r = s.op('r', end='A', addr='B')
+        w = s.op('w', end='A', addr='B', v=hval(g, 'srcA', small=True))
+        s.ctl('sleep', ms=50)
+        s.ctl('q')
+        s.ctl('tick', s=14)
+        s.wait([r])
+        s.ctl('q')
+        s.ctl('cancel', id=w)
+        s.wait([w], ms=10000)
+        s.ctl('q')
+        w2 = s.op('w', end='A', addr='B', v=hval(g, 'srcA', small=True), pre=True)
+        s.wait([w2])
         s.ctl('q')
     elif variant in ('unreachable-twice', 'unreachable-after-timeout'):
         # a second failing Write on the connection a first failure (or the idle-timeout tick) has already
@@ -549,7 +570,7 @@ def generate(tier, rng):
         out.append(websocket_ctx(rng, 'blocked-write', False))
         for v in ('blocked-read', 'pre-read', 'blocked-serve', 'pre-serve', 'pre-serve-reader', 'fresh-blocked-serve'):
             out.append(http_ctx(rng, v))
-        for v in ('blocked-write', 'pre-write', 'unreachable', 'unreachable-twice', 'unreachable-after-timeout', 'blocked-read'):
+        for v in ('blocked-write', 'pre-write', 'unreachable', 'unreachable-twice', 'unreachable-after-timeout', 'blocked-write-timeout-cancel', 'blocked-read'):
             out.append(loop_ctx(rng, v))
     # raw inputs: ~500 (quick) / ~20000 (thorough)
     for _ in range(10 if quick else 330):
